@@ -63,6 +63,12 @@ def tasks(tier):
     for ts in (1e-300, 2.0 ** -60, 1e-9):
         out.append({"family": "adaptive", "cfg": {"target": ts, "min": 1.0, "max": 5.0, "window": 4},
                     "entry": "adaptive", "bound": d - 2, "weight": 2})
+    # the context carries a remaining deadline smaller than the scaled delay: the factor is still
+    # within [min_multiplier, max_multiplier] (clamping to the deadline is the policy's job)
+    for mn, mx, rem in [(2.0, 5.0, 0.1), (1.0, 5.0, 0.05), (1.5, 1.5, 0.0)]:
+        out.append({"family": "adaptive", "cfg": {"target": 0.9, "min": mn, "max": mx, "window": 4,
+                                                   "remaining": rem},
+                    "entry": "adaptive", "bound": d - 2, "weight": 2})
     # very long histories inside one window (bounded-memory optimisations must not break the range)
     for ts, (mn, mx) in itertools.product([0.5, 0.9], [(1.0, 3.0), (2.0, 5.0)]):
         out.append({"family": "adaptive-long", "cfg": {"target": ts, "min": mn, "max": mx, "window": 4},
@@ -207,7 +213,7 @@ def run_adaptive(task, seed):
     events = [("ok",), ("fail",), ("tick", 1), ("tick", cfg["window"]), ("tick", cfg["window"] + 1),
               ("call", 0.0), ("call", 0.125), ("call", 5.0), ("call", -1.0)]
     ctx = S.BackoffContext(attempt=1, classification=Classification(klass=ErrorClass.TRANSIENT),
-                           prev_sleep_s=None, remaining_s=None, cause="exception")
+                           prev_sleep_s=None, remaining_s=cfg.get("remaining"), cause="exception")
 
     def replay(hist):
         clock = E.Clock()
